@@ -7,6 +7,8 @@
 (*   "ok"      evaluate, not solved                                        *)
 (*   "solved"  evaluate, report the generation solved                      *)
 (*   "fail"    return an error                                             *)
+(*   "failctx" return an error that wraps context.Canceled while the run   *)
+(*             context is alive (the evaluator's own child context died)   *)
 (*   "cancel"  cancel the context while evaluating, report not solved      *)
 (*   "csolved" cancel the context while evaluating, report solved          *)
 (* Independently the scripted OBSERVER may cancel the context while it is   *)
@@ -30,7 +32,8 @@ VARIABLES script, observer,  \* inputs
           err                \* "" | "fail" | "cancelled"
 vars == <<script, observer, ocancel, pc, run, gen, pop, cancelled, evals, calls, cur, trials, finalPops, err>>
 
-Outcomes == {"ok", "solved", "fail", "cancel", "csolved"}
+Outcomes == {"ok", "solved", "fail", "failctx", "cancel", "csolved"}
+Fails == {"fail", "failctx"}
 Notify(c) == IF observer THEN Append(calls, c) ELSE calls
 CancelledBy(c) == cancelled \/ (observer /\ c \in ocancel)
 
@@ -61,7 +64,7 @@ Evaluate ==
     /\ evals' = Append(evals, <<run, gen, pop>>)
     /\ LET o == script[run + 1][gen + 1] IN
        /\ cancelled' = (cancelled \/ o \in {"cancel", "csolved"})
-       /\ IF o = "fail" THEN pc' = "done" /\ err' = "fail"
+       /\ IF o \in Fails THEN pc' = "done" /\ err' = "fail"
           ELSE IF o \in {"solved", "csolved"} THEN pc' = "record" /\ err' = err
           ELSE pc' = "epoch" /\ err' = err
     /\ UNCHANGED <<script, observer, ocancel, run, gen, pop, calls, cur, trials, finalPops>>
@@ -122,7 +125,7 @@ NoObserverNoCalls == ~observer => calls = <<>>
 \* the end of a run
 Final == pc = "done" =>
     /\ (err = "") => (Len(trials) = NumRuns)
-    /\ (err = "fail") => script[evals[Len(evals)][1] + 1][evals[Len(evals)][2] + 1] = "fail"
+    /\ (err = "fail") => script[evals[Len(evals)][1] + 1][evals[Len(evals)][2] + 1] \in Fails
     /\ (err = "cancelled") => \/ \E i \in DOMAIN evals : script[evals[i][1] + 1][evals[i][2] + 1] \in {"cancel", "csolved"}
                               \/ \E i \in DOMAIN calls : calls[i] \in ocancel
     /\ ((\A i \in DOMAIN evals : script[evals[i][1] + 1][evals[i][2] + 1] \in {"ok", "solved"})
